@@ -14,6 +14,9 @@
 //!   14002 set;rotate(k)    ps=[be N ext base2k k_lut kmsg]        vs=[f, ks]    -> for each k: data_0 .. data_{ext-1} of a fresh table rotated by k
 //!   14003 set;rotate sweep ps=[be N ext base2k k_lut kmsg]        vs=[f, ks]    -> for each k: the limbs of coefficient 0 of data_0
 //!   14004 mod_switch_2n    ps=[n2 base2k size dir]                vs=[limb_0..] -> [res]
+//!   14005 history          ps=[be N ext base2k k_lut]             vs=[events, [kmsg f..]..] -> [data_0 .. data_{ext-1}, [drift], [rot_dir]]
+//!                          events = [kind arg ...]: kind 0 set_rotation_direction(arg 0 Left / 1 Right), kind 1 set(vs[arg])
+//!   14021 blind, history   ps=BP (dir field unused)               vs=[f (unused), lwe, sk_lwe, events, [kmsg f..]..] -> as 14020
 //!   14010 blind, raw       ps=BP                                  vs=[f, lwe (limb-major flat), sk_lwe] -> [res col 0.. (limb-major flat)]
 //!   14020 blind, decrypted ps=BP                                  vs=[f, lwe, sk_lwe] -> [lwe_2n, round_F(decrypt(res))]
 //!   BP = [be N ext block n_lwe base2k k_lwe k_brk rows k_lut k_res rank kmsg dir dist key_seed x p]
@@ -100,6 +103,25 @@ fn mk_lut<M: LookupTableFactory>(m: &M, n: usize, ext: usize, base2k: u32, k_lut
     let mut lut = LookupTable::alloc(&infos);
     lut.set(m, f, kmsg);
     lut
+}
+
+/// a table after a configuration history: events = [kind, arg, ...]; kind 0: set_rotation_direction(arg: 0 Left, 1 Right);
+/// kind 1: set(f, kmsg) with [kmsg, f...] = vs[arg]
+fn lut_history<M: LookupTableFactory>(m: &M, n: usize, ext: usize, base2k: u32, k_lut: u32, events: &[i128], vs: &[Vec<i128>]) -> LookupTable {
+    let infos = LookUpTableLayout { n: Degree(n as u32), extension_factor: ext, k: TorusPrecision(k_lut), base2k: Base2K(base2k) };
+    let mut lut = LookupTable::alloc(&infos);
+    for ev in events.chunks_exact(2) {
+        if ev[0] == 0 {
+            lut.set_rotation_direction(if ev[1] == 0 { LookUpTableRotationDirection::Left } else { LookUpTableRotationDirection::Right });
+        } else {
+            let tb = &vs[ev[1] as usize];
+            lut.set(m, &v64(&tb[1..]), tb[0] as usize);
+        }
+    }
+    lut
+}
+fn dir_code(lut: &LookupTable) -> i128 {
+    match lut.rotation_direction() { LookUpTableRotationDirection::Left => 0, LookUpTableRotationDirection::Right => 1 }
 }
 
 // ------------------------------------------------------------------------------------------------------------
@@ -227,8 +249,13 @@ fn blind(c: &Bp, r: &Rec) -> Vec<Vec<i128>> {
         let ks = keyset!(BE, c);
         let m = &ks.module;
         assert_eq!(v64(&r.vs[2]), ks.sk_lwe.raw().to_vec(), "record's sk_lwe is not the one derived from key_seed");
-        let mut lut = mk_lut(m, c.n, c.ext, c.base2k, c.k_lut, c.kmsg, &v64(&r.vs[0]));
-        if c.dir == 1 { lut.set_rotation_direction(LookUpTableRotationDirection::Right); }
+        let lut = if r.code == 14021 {
+            lut_history(m, c.n, c.ext, c.base2k, c.k_lut, &r.vs[3], &r.vs)
+        } else {
+            let mut lut = mk_lut(m, c.n, c.ext, c.base2k, c.k_lut, c.kmsg, &v64(&r.vs[0]));
+            if c.dir == 1 { lut.set_rotation_direction(LookUpTableRotationDirection::Right); }
+            lut
+        };
         let lwe_infos = c.lwe_layout();
         let mut lwe: LWE<Vec<u8>> = LWE::alloc_from_infos(&lwe_infos);
         let sz = lwe.data().size();
@@ -307,7 +334,17 @@ fn op(r: &Rec) -> Vec<Vec<i128>> {
             mod_switch_2n(n2, &mut res, &lwe.to_ref(), d);
             vec![to128(&res)]
         }
-        14010 | 14020 => blind(&bp(p), r),
+        14005 => {
+            let (be, n, ext, base2k, k_lut) = (p[0], p[1] as usize, p[2] as usize, p[3] as u32, p[4] as u32);
+            with_be!(be, BE, {
+                let m = module::<BE>(n);
+                let lut = lut_history(&m, n, ext, base2k, k_lut, &r.vs[0], &r.vs);
+                let mut out = dump_lut(&lut);
+                out.push(vec![dir_code(&lut)]);
+                out
+            })
+        }
+        14010 | 14020 | 14021 => blind(&bp(p), r),
         _ => panic!("c14: unknown op"),
     }
 }
@@ -395,6 +432,50 @@ pub fn generate(tier: &str, seed: u64) -> Vec<Rec> {
                     let js: Vec<i64> = if (n == 8 && (ri == 0 || (ri == 3 && ext <= 2))) || (thorough && n * ext <= 64) { (0..t).collect() }
                                        else { let mut v: Vec<i64> = (0..6).map(|_| rng.range(-t, t - 1)).collect(); v.extend([1, -1, t - 1, i64::MIN]); v };
                     out.push(Rec::new(14002, ps.clone(), vec![f.clone(), js.iter().map(|j| *j as i128).collect()]));
+                }
+            }
+        }
+    }
+
+    // ---------------- configuration histories: every order of set_rotation_direction(L|R) / set(f1) / set(f2) ----------------
+    {
+        // alphabet: 0 = dir Left, 1 = dir Right, 2 = set(table 1), 3 = set(table 2); all words of length <= 3, sampled words of length 4..5
+        let mut words: Vec<Vec<u8>> = vec![vec![]];
+        for len in 1..=3usize { for w in 0..4usize.pow(len as u32) { words.push((0..len).map(|i| ((w >> (2 * i)) & 3) as u8).collect()); } }
+        for _ in 0..(if thorough { 200 } else { 40 }) { let len = 4 + rng.below(2) as usize; words.push((0..len).map(|_| rng.below(4) as u8).collect()); }
+        for (n, ext, b, klut, k1, k2) in [(8usize, 1usize, 4usize, 8usize, 3usize, 6usize), (8, 2, 19, 19, 5, 3), (16, 4, 5, 10, 7, 4)] {
+            for w in &words {
+                let f1 = rand_f(&mut rng, 4, k1, b);
+                let f2 = rand_f(&mut rng, 8, k2, b);
+                let mut t1 = vec![k1 as i128]; t1.extend(f1);
+                let mut t2 = vec![k2 as i128]; t2.extend(f2);
+                let events: Vec<i128> = w.iter().flat_map(|c| match c { 0 => [0i128, 0], 1 => [0, 1], 2 => [1, 1], _ => [1, 2] }).collect();
+                out.push(Rec::new(14005, vec![next_be(), n as i128, ext as i128, b as i128, klut as i128], vec![events, t1, t2]));
+            }
+        }
+        // blind path: execute and decrypt after the history, a few messages
+        for (block, ext) in [(1usize, 1usize), (2, 1), (2, 2)] {
+            for w in &words {
+                if !w.iter().any(|c| *c >= 2) { continue; }
+                if !thorough && w.len() > 3 && rng.below(2) == 0 { continue; }
+                let mut c = tiny_params(1, 8);
+                c.block = block; c.ext = ext; c.dist = 0; c.n_lwe = 3 * block; c.p = 2; c.kmsg = 3;
+                let mut sk = sk_lwe_of(&c);
+                while sk.iter().sum::<i64>() == 0 { c.key_seed += 1; sk = sk_lwe_of(&c); }
+                // the direction requested last decides how the ciphertext is built (sign of the phase), nothing else
+                c.dir = w.iter().rev().find(|c| **c < 2).map(|c| *c as i128).unwrap_or(0);
+                let t = (2 * c.n * c.ext) as i64;
+                let mut t1 = vec![3i128]; t1.extend([1i128, 3, 0, 2]);
+                let mut t2 = vec![3i128]; t2.extend([2i128, 0, 3, 1]);
+                let events: Vec<i128> = w.iter().flat_map(|c| match c { 0 => [0i128, 0], 1 => [0, 4], 2 => [1, 4], _ => [1, 5] }).collect();
+                let events: Vec<i128> = events.chunks(2).flat_map(|e| if e[0] == 0 { [0, if e[1] == 0 { 0 } else { 1 }] } else { [1, e[1]] }).collect();
+                for x in [1i64, 2, 5] {
+                    let mut l2n: Vec<i64> = (0..=c.n_lwe).map(|_| rng.range(-t / 2 + 1, t / 2 - 1)).collect();
+                    let sum: i64 = (0..c.n_lwe).map(|i| l2n[i + 1] * sk[i]).sum();
+                    let target = if c.dir == 0 { -(x * t / 8) } else { x * t / 8 };
+                    l2n[0] = target - sum;
+                    c.x = x;
+                    out.push(Rec::new(14021, c.ps(), vec![vec![], crafted_lwe(&c, &l2n), to128(&sk), events.clone(), t1.clone(), t2.clone()]));
                 }
             }
         }
